@@ -357,8 +357,8 @@ class Session:
 
     def _pending(self):
         for mgr in self.dev._subscriptions_managers.values():
-            if any(s.unsubscribed_at is not None for s in mgr._subscriptions.objects):
-                return True     # housekeeping removes it about one second later
+            if any(s.unsubscribed_at is not None or not s.is_valid for s in mgr._subscriptions.objects):
+                return True     # unsubscribed, expired or closed after delivery errors: housekeeping removes it within about a second
         for reg in self.dev._sco_operations_registries.values():
             w = getattr(reg, '_worker', None)
             if w is not None and not w._operations_queue.empty():
